@@ -239,7 +239,7 @@ def multi_part(run, n):
     badi = run.coq_failing(HEADER, terms, chunk=25)
     run.cov["multi_timeline_programs_validated_against_model"] = len(terms) - len(badi)
     run.cov["traces_validated_against_impl"] += len(terms) - len(badi)
-    for b in badi:
+    for b in badi[:3]:
         pi = where[b]
         run.violation({"kind": "correspondence", "site": "Sched/StaticMulti.v"}, {
             "part": "multi", "broken": "correspondence Sched/StaticMulti.v <-> isobar PStaticPattern/PGlobals/PCurrentTime read from several timelines "
